@@ -177,4 +177,4 @@ class DiagonalNormal(Distribution):
         raise NotImplementedError()
 
     def _mean(self, context):
-        return self.mean
+        return self.mean_.reshape(self._shape)
